@@ -28,3 +28,7 @@
 (14 ((1 1 1 40) ((0 0 0 0 1) (0 1 0 0 1)) ((0 (2))) 0))
 ; C14: Shutdown with a bulk request in flight and one request pending (known findings F7, both halves)
 (14 ((3 1 1 300) ((0 0 1 1 5) (0 1 1 0 6) (0 2 1 0 6) (0 3 1 0 6) (1 7)) () 2))
+; C14: timer flush of a partial batch whose response is held while more requests arrive, then release
+(14 ((4 1 8 40) ((0 0 1 1 5) (0 1 1 0 6) (2) (0 2 1 0 7) (0 3 1 1 8)) () 3))
+; C15: two error reports then a produce request on one instance, records read at the end
+(15 (3 (116) ((2 (0 1 0 (0 (3 (97 97 97 97 97 97 97 97))) (0 (98 111 111 109)))) (2 (0 0 1 (0 (2 7)) (2 (69) (109) ()))) (1 (0 () (1 2 3))))))
